@@ -66,9 +66,19 @@ def _align(a: Arr, b: Arr) -> Tuple[list, Expr, Expr]:
     n = max(na, nb)
     axes = []
     ea, eb = a.elem, b.elem
+    # an index variable of b that names a *different* axis position of a (the same input array used on two axes,
+    # e.g. X[:, None, :] - X[None, :, :]) must not be captured: rename it first
+    pos_a = {iv: na - j for j, (_sp, iv) in enumerate(a.axes)}
+    b_axes = list(b.axes)
+    for j, (sp, iv) in enumerate(b_axes):
+        k = nb - j
+        if iv in pos_a and pos_a[iv] != k:
+            niv = fresh()
+            eb = sym.subst_ivar(eb, iv, (niv, 0))
+            b_axes[j] = (sp, niv)
     for k in range(1, n + 1):
         xa = a.axes[na - k] if k <= na else None
-        xb = b.axes[nb - k] if k <= nb else None
+        xb = b_axes[nb - k] if k <= nb else None
         if xa is None:
             axes.append(xb)
         elif xb is None:
